@@ -239,7 +239,9 @@ func (g *G) send() Stmt {
 		}
 		st.Src = v
 	} else {
-		st.Src = &VASource{Src: g.source(asset, 0, !all || g.bad())}
+		// a send-all normally has bounded sources; one in three tries an unbounded account somewhere inside
+		// (the compiler must refuse it wherever it sits)
+		st.Src = &VASource{Src: g.source(asset, 0, !all || g.bad() || g.r.Chance(1, 3))}
 	}
 	st.Dest = g.dest(asset, 0)
 	return st
